@@ -1,4 +1,5 @@
 import WindVerif.Proofs.LineFile
+import WindVerif.Proofs.SaveEndings
 import WindVerif.Proofs.RecFileM
 import WindVerif.Proofs.LineFileSeq
 import WindVerif.Proofs.RecFileSeq
@@ -318,6 +319,53 @@ example :
     (f.setRec F (-1) ["x".toList, "y".toList]).toOption = some ⟨f.source, [.src 0, .txt "x,y\r\n".toList]⟩ ∧
     f.records F = [["a".toList, "b".toList], ["c".toList, "d".toList]].map some ∧
     (∀ r ∈ [["a".toList, "b".toList], ["c".toList, "d".toList]], F.load (F.save r) = some r) := by
+  decide
+
+end WindVerif.C12
+
+/-! ### every line ending, the empty one included (proofs in `Proofs/SaveEndings.lean`, corollaries of `save_spec`) -/
+namespace WindVerif.C12
+open WindVerif.LineFile
+
+/-- with the empty ending the saved text is the concatenation of the lines (each without trailing line breaks) -/
+theorem save_empty_ending (f : LF) (ls : List Str) (h : Good f ls) (hc : f.closed = false) :
+    ∃ f', f.save [] = .ok (f', (ls.map rstripNL).flatten) ∧ SameButCursor f f' := by
+  first | exact WindVerif.LineFile.save_empty_ending .. | (apply WindVerif.LineFile.save_empty_ending <;> assumption)
+
+/-- … for lines that carry no line break it is the plain concatenation -/
+theorem save_empty_ending_nonl (f : LF) (ls : List Str) (h : Good f ls) (hc : f.closed = false)
+    (hnl : ∀ l ∈ ls, '\n' ∉ l) :
+    ∃ f', f.save [] = .ok (f', ls.flatten) ∧ SameButCursor f f' := by
+  first | exact WindVerif.LineFile.save_empty_ending_nonl .. | (apply WindVerif.LineFile.save_empty_ending_nonl <;> assumption)
+
+/-- the saved text has the sum of the line lengths plus `n` times the length of the ending — in characters and in bytes
+(utf-8) -/
+theorem save_ending_length (f : LF) (ls : List Str) (h : Good f ls) (hc : f.closed = false) (le : Str) :
+    ∃ f' out, f.save le = .ok (f', out) ∧
+      out.length = (ls.map (fun l => (rstripNL l).length)).sum + ls.length * le.length ∧
+      byteLen out = (ls.map (fun l => byteLen (rstripNL l))).sum + ls.length * byteLen le := by
+  first | exact WindVerif.LineFile.save_ending_length .. | (apply WindVerif.LineFile.save_ending_length <;> assumption)
+
+/-- the seeded variant (`line_ending = line_ending or "\n"`) agrees with `save` for every non-empty ending … -/
+theorem saveOrDefault_nonempty (f : LF) (le : Str) (hne : le ≠ []) : f.saveOrDefault le = f.save le := by
+  first | exact WindVerif.LineFile.saveOrDefault_nonempty .. | (apply WindVerif.LineFile.saveOrDefault_nonempty <;> assumption)
+
+/-- … and differs on the empty one: lines `a`, `b` are saved as `ab`, the variant writes `a\nb\n` -/
+theorem save_or_default_wrong :
+    let f := (LF.new "a\nb\n".toList (some [0, 2])).open
+    (f.save []).toOption.map (·.2) = some "ab".toList ∧
+    (f.saveOrDefault []).toOption.map (·.2) = some "a\nb\n".toList ∧
+    (f.save []).toOption.map (·.2) ≠ (f.saveOrDefault []).toOption.map (·.2) := by
+  first | exact WindVerif.LineFile.save_or_default_wrong .. | (apply WindVerif.LineFile.save_or_default_wrong <;> assumption)
+
+/-- non-vacuity: the file of the witness is opened and presents the lines `a`, `b` (no line breaks in them); with a
+two-character ending and a non-ASCII line the saved text and its two lengths -/
+example : Good (LF.new "a\nb\n".toList (some [0, 2])).open ["a".toList, "b".toList] ∧
+    (LF.new "a\nb\n".toList (some [0, 2])).open.closed = false ∧ (∀ l ∈ ["a".toList, "b".toList], '\n' ∉ l) :=
+  ⟨WindVerif.LineFile.save_or_default_witness_good.1, WindVerif.LineFile.save_or_default_witness_good.2, by decide⟩
+example :
+    let f := ((LF.new "a\nb\n".toList (some [0, 2])).open).insert 1 "é".toList
+    (f.save "\r\n".toList).toOption.map (fun r => (r.2, r.2.length, byteLen r.2)) = some ("a\r\né\r\nb\r\n".toList, 9, 10) := by
   decide
 
 end WindVerif.C12
